@@ -563,19 +563,21 @@ func lookup(i *interpreter, instr *ssa.Lookup, x, idx value) value {
 // typeAssert checks whether dynamic type of itf is instr.AssertedType.
 func typeAssert(i *interpreter, instr *ssa.TypeAssert, itf iface) value {
 	var v value
-	err := ""
+	failed := false
 	if itf.t == nil {
-		err = fmt.Sprintf("interface conversion: interface is nil, not %s", instr.AssertedType)
+		failed = true
 	} else if idst, ok := instr.AssertedType.Underlying().(*types.Interface); ok {
 		v = itf
-		err = checkInterface(i, idst, itf)
-	} else if types.Identical(itf.t, instr.AssertedType) {
+		failed = !i.sh.implements(itf.t, idst)
+	} else if i.sh.identical(itf.t, instr.AssertedType) {
 		v = itf.v // extract value
 	} else {
-		err = fmt.Sprintf("interface conversion: interface is %s, not %s", itf.t, instr.AssertedType)
+		failed = true
 	}
-	if err != "" {
+	if failed {
 		if !instr.CommaOk {
+			// error text only built on the (rare) panicking path: type printing is expensive
+			err := fmt.Sprintf("interface conversion: interface is %v, not %s", itf.t, instr.AssertedType)
 			panic(targetPanic{i.runtimeError(err)})
 		}
 		return tuple{zero(instr.AssertedType), false}
